@@ -47,9 +47,6 @@ func (c *Client) Subscribe(ctx context.Context, params *SubscriptionParameters, 
 
 	stats.Subscription().Add("Count", 1)
 
-	// start the publish loop if it isn't already running
-	c.resumech <- struct{}{}
-
 	sub := &Subscription{
 		SubscriptionID:            res.SubscriptionID,
 		RevisedPublishingInterval: time.Duration(res.RevisedPublishingInterval) * time.Millisecond,
@@ -73,6 +70,9 @@ func (c *Client) Subscribe(ctx context.Context, params *SubscriptionParameters, 
 
 	c.subs[sub.SubscriptionID] = sub
 	c.updatePublishTimeout_NeedsSubMuxLock()
+
+	// start the publish loop if it isn't already running
+	c.resumeSubscriptions(ctx)
 	return sub, nil
 }
 
@@ -259,8 +259,6 @@ func (c *Client) forgetSubscription_NeedsSubMuxLock(ctx context.Context, id uint
 	stats.Subscription().Add("Count", -1)
 
 	if len(c.subs) == 0 {
-		// todo(fs): are we holding the lock too long here?
-		// todo(fs): consider running this as a go routine
 		c.pauseSubscriptions(ctx)
 	}
 }
@@ -346,22 +344,50 @@ func (c *Client) notifySubscription(ctx context.Context, sub *Subscription, noti
 	}
 }
 
-// pauseSubscriptions suspends the publish loop by signalling the pausech.
+// pauseSubscriptions suspends the publish loop. The loop stops
+// sending publish requests once the pending request has returned.
 // It has no effect if the publish loop is already paused.
+//
+// Pausing and resuming never block: they are called while subMux
+// is held and from the publish loop itself.
 func (c *Client) pauseSubscriptions(ctx context.Context) {
+	c.pauseMu.Lock()
+	c.subsPaused = true
+	c.pauseMu.Unlock()
+}
+
+// pauseSubscriptionsUnlessResumed suspends the publish loop unless
+// resumeSubscriptions has been called since the caller obtained
+// resumes from subscriptionsPaused.
+func (c *Client) pauseSubscriptionsUnlessResumed(resumes uint64) {
+	c.pauseMu.Lock()
+	if c.subsResumes == resumes {
+		c.subsPaused = true
+	}
+	c.pauseMu.Unlock()
+}
+
+// resumeSubscriptions restarts the publish loop.
+// It has no effect if the publish loop is not paused.
+func (c *Client) resumeSubscriptions(ctx context.Context) {
+	c.pauseMu.Lock()
+	c.subsPaused = false
+	c.subsResumes++
+	c.pauseMu.Unlock()
+
 	select {
-	case <-ctx.Done():
-	case c.pausech <- struct{}{}:
+	case c.wakech <- struct{}{}:
+	default:
+		// the publish loop has not picked up the previous wake up yet
 	}
 }
 
-// resumeSubscriptions restarts the publish loop by signalling the resumech.
-// It has no effect if the publish loop is not paused.
-func (c *Client) resumeSubscriptions(ctx context.Context) {
-	select {
-	case <-ctx.Done():
-	case c.resumech <- struct{}{}:
-	}
+// subscriptionsPaused returns whether the publish loop is paused
+// and the number of times it has been resumed so far.
+func (c *Client) subscriptionsPaused() (paused bool, resumes uint64) {
+	c.pauseMu.Lock()
+	defer c.pauseMu.Unlock()
+	return c.subsPaused, c.subsResumes
 }
 
 // monitorSubscriptions sends publish requests and handles publish responses
@@ -370,44 +396,38 @@ func (c *Client) monitorSubscriptions(ctx context.Context) {
 	dlog := debug.NewPrefixLogger("sub: ")
 	defer dlog.Print("done")
 
-publish:
 	for {
 		select {
 		case <-ctx.Done():
 			dlog.Println("ctx.Done()")
 			return
-
-		case <-c.resumech:
-			dlog.Print("resume")
-			// ignore since not paused
-
-		case <-c.pausech:
-			dlog.Print("pause")
-			for {
-				select {
-				case <-ctx.Done():
-					dlog.Print("pause: ctx.Done()")
-					return
-
-				case <-c.resumech:
-					dlog.Print("pause: resume")
-					continue publish
-
-				case <-c.pausech:
-					dlog.Print("pause: pause")
-					// ignore since already paused
-				}
-			}
-
 		default:
-			// send publish request and handle response
-			//
-			// publish() blocks until a PublishResponse
-			// is received or the context is cancelled.
-			if err := c.publish(ctx); err != nil {
-				dlog.Print("error: ", err.Error())
-				c.pauseSubscriptions(ctx)
+		}
+
+		paused, resumes := c.subscriptionsPaused()
+		if paused {
+			dlog.Print("pause")
+			select {
+			case <-ctx.Done():
+				dlog.Print("pause: ctx.Done()")
+				return
+			case <-c.wakech:
+				// check again since the wake up can be stale
 			}
+			continue
+		}
+
+		// send publish request and handle response
+		//
+		// publish() blocks until a PublishResponse
+		// is received or the context is cancelled.
+		if err := c.publish(ctx); err != nil {
+			dlog.Print("error: ", err.Error())
+
+			// do not pause if the loop has been resumed while the
+			// request was pending, e.g. the server has reported that
+			// there are no subscriptions just before a new one was created.
+			c.pauseSubscriptionsUnlessResumed(resumes)
 		}
 	}
 }
